@@ -199,16 +199,10 @@ func (w *world) close() {
 		c.act.releaseAll()
 	}
 	w.pipe.Close()
-	select {
-	case <-w.sdone:
-	case <-time.After(w.wd()):
-	}
+	waitFor(w.wd(), func() bool { return len(w.sdone) > 0 })
 	for _, c := range w.calls {
 		if c.ph != phRet {
-			select {
-			case <-c.ret:
-			case <-time.After(w.wd()):
-			}
+			waitFor(w.wd(), func() bool { return len(c.ret) > 0 })
 		}
 	}
 }
@@ -304,6 +298,15 @@ func (w *world) awaitRequest(c *callRec) {
 				n++
 				if n == w.nreq+1 {
 					c.reqID, _ = e.Attr("id")
+					to, _ := e.Attr("to")
+					typ, _ := e.Attr("type")
+					wantTyp := "unavailable"
+					if c.join {
+						wantTyp = ""
+					}
+					if to != addrs[c.a] || typ != wantTyp || c.reqID == "" {
+						w.anom(fmt.Sprintf("wrong-request: call %d (join=%v, %s) sent <presence to=%q type=%q id=%q>", c.k, c.join, addrs[c.a], to, typ, c.reqID))
+					}
 					return true
 				}
 			}
@@ -425,14 +428,15 @@ func (w *world) expectReturn(c *callRec) bool {
 	if c.ph == phRet {
 		return true
 	}
-	select {
-	case err := <-c.ret:
-		w.noteReturn(c, err)
-		return true
-	case <-time.After(w.wd()):
-		w.stuck = true
-		return false
-	}
+	return w.waitFor(func() bool {
+		select {
+		case err := <-c.ret:
+			w.noteReturn(c, err)
+			return true
+		default:
+			return false
+		}
+	})
 }
 
 // collect records returns that have happened.
@@ -554,7 +558,13 @@ func (w *world) race(k int) bool {
 // ---- the service ----
 
 func (w *world) sendRaw(s string) bool {
-	if err := w.pipe.Send([]byte(s)); err != nil {
+	var err error
+	if !within(w.wd(), func() { _, err = w.pipe.Peer.Write([]byte(s)) }) {
+		w.stuck = true
+		w.anom("write to the session failed: the session stopped reading")
+		return false
+	}
+	if err != nil {
 		w.anom("write to the session failed: " + err.Error())
 		return false
 	}
@@ -774,6 +784,9 @@ var others = []string{
 	`<message from="room2@muc.example" to="` + me + `" type="normal"><x xmlns="jabber:x:conference" jid="room2@muc.example"/></message>`,
 	`<presence from="room1@muc.example/nick" to="` + me + `" type="unavailable"/>`,
 	`<message from="room1@muc.example/nick" to="` + me + `" type="chat"><x xmlns="http://jabber.org/protocol/muc#user"><invite from="a@b"><reason>inv-99</reason></invite></x></message>`,
+	// muc#user payloads of normal messages that are not invitations
+	`<message from="room1@muc.example" to="` + me + `" type="normal"><x xmlns="http://jabber.org/protocol/muc#user"><decline from="a@b"><reason>no</reason></decline></x></message>`,
+	`<message from="room1@muc.example" to="` + me + `"><x xmlns="http://jabber.org/protocol/muc#user"><status code="104"/></x></message>`,
 }
 
 func (w *world) deliverOther(v int) bool {
@@ -796,7 +809,7 @@ func (w *world) query(a int) bool {
 		return false
 	}
 	var b bool
-	if !hx.WithTimeout(watchdog, func() { b = obj.Joined() }) {
+	if !within(watchdog, func() { b = obj.Joined() }) {
 		w.anom("Joined() blocked")
 		return true
 	}
